@@ -84,8 +84,8 @@ type vrfRefMsg struct {
 type vrfRef struct {
 	boxes   map[string][]vrfRefMsg
 	issued  map[string][]string // every id returned per mailbox (since the last restart: the live ones)
-	touched map[string]int // step of the last mutation per mailbox
-	gone    []string       // box+"/"+id of every message that left
+	touched map[string]int      // step of the last mutation per mailbox
+	gone    []string            // box+"/"+id of every message that left
 	// ids handed out by the current process (the state of the id generator) and the step at which
 	// that process started (which generator channel is the live one)
 	sinceRestart int
